@@ -5,6 +5,7 @@
 #include "nmtools/array/ndarray.hpp"
 #include "nmtools/utility/cast.hpp"
 #include "nmtools/utility/at.hpp"
+#include "nmtools/utility/get_if.hpp"
 #include "nmtools/array/index/ndindex.hpp"
 #include "nmtools/array/index/product.hpp"
 
@@ -16,6 +17,11 @@ template <typename T> inline std::string norm_arr(const T& v) {
     else if constexpr (meta::is_maybe_v<T>) {
         if (!nm::has_value(v)) return "nothing";
         return norm_arr(*v);
+    } else if constexpr (meta::is_either_v<T>) {
+        // a run-time keepdims flag gives either<view keepdims=true, view keepdims=false>
+        using L = meta::get_either_left_t<T>; using R = meta::get_either_right_t<T>;
+        if (auto l = nm::get_if<L>(&v)) return norm_arr(*l);
+        return norm_arr(*nm::get_if<R>(&v));
     } else if constexpr (meta::is_num_v<T>) {
         return "ok shape=[] data=" + std::to_string((long long)v);
     } else {
@@ -29,6 +35,26 @@ template <typename T> inline std::string norm_arr(const T& v) {
             o += std::to_string((long long)nm::apply_at(v, nd[i]));
         }
         return o;
+    }
+}
+
+// a tuple of arrays (view::broadcast_arrays): `ok shape=.. data=..|shape=.. data=..`
+template <typename T> inline std::string norm_arrs(const T& v) {
+    if constexpr (meta::is_fail_v<T>) return "fail-type";
+    else if constexpr (meta::is_maybe_v<T>) {
+        if (!nm::has_value(v)) return "nothing";
+        return norm_arrs(*v);
+    } else {
+        std::string o = "ok ";
+        bool bad = false;
+        constexpr auto N = meta::len_v<T>;
+        meta::template_for<N>([&](auto i){
+            auto s = norm_arr(nmtools::get<decltype(i)::value>(v));
+            if (s.rfind("ok ", 0) != 0) { bad = true; return; }
+            if (decltype(i)::value) o += "|";
+            o += s.substr(3);
+        });
+        return bad ? std::string("nothing") : o;
     }
 }
 
